@@ -402,6 +402,9 @@ def r11c(ctx, P):
     ctx.floor(rid, n, 2, "bounded-heap replacements (wand::push_top_k, reader::push_ranked)")
 
 
+THOROUGH_FEATURES = ['r11c']
+
+
 def run(ctx, progs):
     P = progs.get("default")
     r11a(ctx, P)
